@@ -36,6 +36,7 @@ type Env struct {
 	Addr    string // host:port of the access API
 	RelayWs string // ws://host:port of the crossbar (real mode only)
 	DS      *deny.Store
+	CS      *ttlcode.CodeStore // mock mode: the API's code store (for counting entries)
 	clock   *int64
 }
 
@@ -95,9 +96,10 @@ func StartMockAPI(ae bool) *Env {
 	wg.Add(1)
 	u := "http://127.0.0.1:" + strconv.Itoa(port)
 	secret := "acc-secret-" + strconv.Itoa(port)
+	cs := ttlcode.NewDefaultCodeStore()
 	cfg := access.Config{
 		AllowNoBookingID: ae,
-		CodeStore:        ttlcode.NewDefaultCodeStore(),
+		CodeStore:        cs,
 		DenyChannel:      dc,
 		DenyStore:        ds,
 		Host:             u,
@@ -108,7 +110,7 @@ func StartMockAPI(ae bool) *Env {
 	}
 	go access.API(closed, &wg, cfg)
 	waitPort(port)
-	return &Env{Mode: "mock", Secret: secret, Addr: "127.0.0.1:" + strconv.Itoa(port), DS: ds, clock: &mockClock,
+	return &Env{Mode: "mock", Secret: secret, Addr: "127.0.0.1:" + strconv.Itoa(port), DS: ds, CS: cs, clock: &mockClock,
 		Cfg: Config{AE: ae, Host: u, Target: cfg.Target, Audience: cfg.Target, TTL: 30}}
 }
 
@@ -231,6 +233,7 @@ type Runner struct {
 	stats   string
 	Strad   bool // the wall clock ticked during an op
 	lastSec int64
+	AfterOp func(orig int, o *Op, out *Out) // called after each executed op (probes)
 }
 
 func NewRunner(e *Env, name string) *Runner {
@@ -371,6 +374,9 @@ func (r *Runner) Run(c *Case) {
 			out = r.doLeave(o.UA)
 		}
 		r.postOp(t)
+		if r.AfterOp != nil {
+			r.AfterOp(i, &o, &out)
+		}
 		ops = append(ops, o)
 		outs = append(outs, out)
 	}
